@@ -86,6 +86,8 @@ def run_impl(ck, thorough):
     if not thorough:
         pass
     un = {"VERIF_CASES": ck.path("unused")}
+    # unbounded in the length of the stream and the schedule: Stream.tla's actions keep freed <= absStart <= absPos <= N (TLAPS)
+    ck.tlaps("stream", "StreamProof", deps=("Stream", "cursor/Cursor"))
     ck.tlc("stream", "StreamImpl", "MC_bytes.cfg", label="I=>P, reader with Bytes()", env=un, **tl)
     ck.tlc("stream", "StreamImpl", "MC_mem.cfg", label="I=>P incl. memory bound with zero slack, free-immediately discipline", env=un, **tl)
     ck.tlc("stream", "StreamImpl", "MC_defect_shiftlen.cfg", label="model of pre-fix ShiftLen is rejected by P", expect_violation="Refines", env=un, **tl)
